@@ -134,7 +134,7 @@ SWAP_DENSE = dict(
     p_mutate_step=0.2, p_clean_step=0.05, w_raise=5, max_nest=1,
     p_write_never=0.04, p_dir2file=0.5)
 OVERLAP = dict(
-    p_anc_target=0.35, w_bf=36, w_sb=10, w_q=26, w_raise=10, p_catch=0.9,
+    p_overlap_struct=0.25, p_self_list=0.2, p_anc_target=0.35, w_bf=36, w_sb=10, w_q=26, w_raise=10, p_catch=0.9,
     p_write_never=0.15, p_write_unlink=0.05, n_paths=(3, 5), n_init=(1, 5),
     n_steps=(2, 5), p_mutate_step=0.3, p_tamper=0.5, n_groups=(1, 1),
     p_q_near_output=0.8, w_probe=4, p_plant=0.2)
@@ -280,7 +280,8 @@ CAMPAIGNS = {
         {'name': 'c10-contract', 'profile': 'C10', 'mode': 'plain',
          'nontrivial': nt_any_build, 'weight': 2.0,
          'params': dict(VIEW_HEAVY, w_probe=8, p_mutate_step=0.4,
-                        p_tamper=0.5, n_init=(0, 5), p_prefix_names=0.4),
+                        p_tamper=0.5, n_init=(0, 5), p_prefix_names=0.4,
+                        p_tick0=0.2, p_hash=0.5),
          'post': 'tag_all:C10',
          'rule': 'build_file at depth 1-3 over prior states of target and '
                  'ancestors x failure modes; physical and virtual state '
@@ -337,8 +338,7 @@ CAMPAIGNS = {
                  'types'},
         {'name': 'c16-write-faults', 'profile': 'C16',
          'mode': 'oserror-sweep', 'nontrivial': nt_rollback_restored,
-         'weight': 1.0, 'chunk': 6, 'only_calls': ['gzopen_w', 'gzwrite',
-                                                   'gzclose'],
+         'weight': 1.0, 'chunk': 6, 'only_calls': ['@cache'],
          'sweep_max': {'quick': 12, 'thorough': None},
          'params': PERSIST_HEAVY, 'post': 'tag_all:C16',
          'rule': 'cache write failing / torn at open, write, close with and '
@@ -628,6 +628,24 @@ CAMPAIGNS['C14'].append(camp(
     'the rollback restores foreign files before it recreates directories',
     mode='oserror-sweep', nontrivial=nt_rollback_restored, chunk=6, follow=1,
     crash_end=True, weight=0.8, sweep_max={'quick': 12, 'thorough': None}))
+CAMPAIGNS['C05'].append(camp(
+    'c05-overlap', 'C05',
+    dict(OVERLAP, p_anc_target=0.5, n_steps=(3, 6), p_mutate_step=0.1,
+         p_tamper=0.2, w_q=34, p_self_list=0.5, p_write_never=0.3,
+         p_overlap_struct=0.5,
+         query_kinds=['list_dir', 'walk', 'walk_bu', 'is_dir', 'exists',
+                      'is_file', 'read_text', 'get_size']),
+    'targets above / below other targets of the same build (one of the two '
+    'calls failing) whose functions list and walk the directories they work '
+    'in: an unchanged rebuild re-executes only what failed', weight=0.8))
+CAMPAIGNS['C14'].append(
+    camp('c14-wide-faults', 'wide', {},
+         'more than 128 (up to 260) files moved aside in one build, the '
+         'creation of a backup sub-directory fails (caught per file), then '
+         'the root function fails: everything is restored',
+         mode='oserror-sweep', nontrivial=nt_rollback_restored, chunk=1,
+         follow=1, weight=0.4, only_calls=['makedirs'], crash_end=True,
+         torn=False, sweep_max={'quick': 4, 'thorough': None}))
 RACE_RULE = ('a key (build_file path / subbuild name+arguments) performed '
              'directly by one thread while another thread reuses or '
              're-executes a cached subtree (depth 1-2) that contains it; '
